@@ -89,7 +89,7 @@ Qed.
 Ltac step_cases H :=
   match type of H with
   | step ?o ?s ?c = Some ?s' =>
-      destruct c as [|t|j|j|j|j|j|]; cbn [step] in H;
+      destruct c as [|t|j|j|j|j|j| | | ]; cbn [step] in H;
       [ idtac
       | destruct (subs s t) eqn:Esub; try discriminate H;
         [ destruct (ph s) eqn:Eph
@@ -97,7 +97,7 @@ Ltac step_cases H :=
           [apply phase_eqb_eq in Eph | apply phase_eqb_neq in Eph]
         | idtac
         | idtac
-        | destruct (is_locking (sh s)) eqn:Elk; try discriminate H;
+        | destruct (is_locking (sh s) || negb (Nat.eqb (pendw s) 0)) eqn:Elk; try discriminate H;
           destruct (phase_eqb (ph s) PRunning) eqn:Eph;
           [apply phase_eqb_eq in Eph | apply phase_eqb_neq in Eph]
         | destruct (closed s) eqn:Ecl
@@ -119,7 +119,13 @@ Ltac step_cases H :=
           try discriminate H
         | idtac
         | destruct (forallb is_exited (ws s)) eqn:Eall; try discriminate H
-        | idtac | idtac | idtac ] ];
+        | idtac | idtac | idtac ]
+      | idtac
+      | destruct (pendw s) as [|pw] eqn:Epw; try discriminate H;
+        destruct (forallb (fun t => negb (is_reader (subs s t))) (seq 0 (next s))) eqn:Erd;
+        try discriminate H;
+        destruct (phase_eqb (ph s) PRunning) eqn:Eph;
+        [apply phase_eqb_eq in Eph | apply phase_eqb_neq in Eph] ];
       inversion H; subst s'; clear H
   end.
 
@@ -216,6 +222,7 @@ Proof.
   - exfalso. apply E. apply (a_starter_uniq _ I); [assumption | rewrite Esub; reflexivity].
   - pose proof (a_starter_ph _ I k Hk). pose proof (a_sh_ph _ I) as P. rewrite Esh in P. simpl in P. congruence.
   - pose proof (a_starter_ph _ I k Hk). pose proof (a_sh_ph _ I) as P. rewrite Esh in P. simpl in P. congruence.
+  - pose proof (a_starter_ph _ I k Hk). congruence.
 Qed.
 
 Lemma stepA_starter_uniq o s c s' : InvA s -> step o s c = Some s' ->
@@ -251,14 +258,16 @@ Lemma stepA_dn_sh o s c s' : InvA s -> step o s c = Some s' -> dn s' = dn_of (sh
 Proof.
   intros I H. assert (P := a_dn_sh _ I).
   step_cases H; simpl; try exact P; try (rewrite Esh in P; exact P); try (rewrite Esh; exact P); auto;
-  try (simpl in P; congruence).
+  try (simpl in P; congruence);
+  try (rewrite P; destruct (sh_ph_running _ I Eph) as [X|X]; rewrite X; reflexivity).
 Qed.
 
 Lemma stepA_closed_sh o s c s' : InvA s -> step o s c = Some s' -> closed s' = closed_of (sh s').
 Proof.
   intros I H. assert (P := a_closed_sh _ I).
   step_cases H; simpl; try exact P; try (rewrite Esh in P; exact P); try (rewrite Esh; exact P); auto;
-  try (simpl in P; congruence).
+  try (simpl in P; congruence);
+  try (rewrite P; destruct (sh_ph_running _ I Eph) as [X|X]; rewrite X; reflexivity).
 Qed.
 
 Lemma stepA_nw o s c s' : InvA s -> step o s c = Some s' -> 1 <= nw s'.
@@ -704,7 +713,8 @@ Proof.
   try (exfalso; assert (Hin : In (nth j (ws s) WExited) (ws s))
          by (eapply nth_In_w; [reflexivity | rewrite Ew; discriminate]);
        specialize (F _ Hin); rewrite Ew in F; discriminate F).
-  split; [exact Esh | reflexivity].
+  - split; [exact Esh | reflexivity].
+  - exfalso. pose proof (a_sh_ph _ I) as Q. rewrite D, Eph in Q. discriminate Q.
 Qed.
 
 Theorem quiescent o n c cs cs' :
@@ -736,28 +746,36 @@ Qed.
 Definition live (x : sst) : Prop := x <> SNone /\ forall r, x <> SRet r.
 
 (* the only places where an Execute call can be blocked: parked on the send with no room, or at
-   the lock while a Shutdown call is waiting for it (the executor is being shut down) *)
+   the lock while some Shutdown call is waiting for it (the executor is being shut down) *)
+Definition writer_waiting (s : st) : Prop := sh s = ShLocking \/ pendw s <> 0.
+
 Lemma sub_blocked_only_without_room o s t :
   live (subs s t) -> step o s (Sub t) = None ->
-  (subs s t = SParked /\ In t (skipn (cap s) (queue s))) \/ (subs s t = SCheck /\ sh s = ShLocking).
+  (subs s t = SParked /\ In t (skipn (cap s) (queue s))) \/ (subs s t = SCheck /\ writer_waiting s).
 Proof.
   intros [L1 L2] H. cbn [step] in H. destruct (subs s t) eqn:E; try discriminate H;
   try (exfalso; apply L1; reflexivity); try (exfalso; eapply L2; reflexivity).
   - destruct (ph s); discriminate H.
   - destruct (phase_eqb (ph s) PInit); discriminate H.
-  - right. destruct (sh s); simpl in H; try (destruct (phase_eqb (ph s) PRunning); discriminate H).
-    split; reflexivity.
+  - right. split; [reflexivity|]. unfold writer_waiting.
+    destruct (is_locking (sh s)) eqn:E1.
+    + left. destruct (sh s); simpl in E1; try discriminate E1. reflexivity.
+    + right. simpl in H. destruct (Nat.eqb (pendw s) 0) eqn:E2; simpl in H.
+      * destruct (phase_eqb (ph s) PRunning); discriminate H.
+      * apply Nat.eqb_neq in E2. exact E2.
   - destruct (closed s); discriminate H.
   - destruct (mem t (bounced s)); [discriminate H|].
     destruct (mem t (skipn (cap s) (queue s))) eqn:M; [|discriminate H].
     left. split; [reflexivity | apply mem_In; exact M].
 Qed.
 
-Lemma sub_room o s t : live (subs s t) -> sh s = ShIdle -> length (queue s) <= cap s -> step o s (Sub t) <> None.
+Lemma sub_room o s t : live (subs s t) -> sh s = ShIdle -> pendw s = 0 -> length (queue s) <= cap s ->
+  step o s (Sub t) <> None.
 Proof.
-  intros L Hs Hroom H. destruct (sub_blocked_only_without_room o s t L H) as [[_ Hin]|[_ Hl]].
+  intros L Hs Hp Hroom H. destruct (sub_blocked_only_without_room o s t L H) as [[_ Hin]|[_ [Hl|Hl]]].
   - rewrite skipn_all2 in Hin by exact Hroom. contradiction.
   - congruence.
+  - exact (Hl Hp).
 Qed.
 
 (* own steps left until Execute returns, on a running executor *)
@@ -775,7 +793,7 @@ Proof.
   - rewrite R in H. simpl in H. inversion H; subst. simpl. rewrite upd_same. simpl. lia.
   - inversion H; subst. simpl. rewrite upd_same. simpl. lia.
   - inversion H; subst. simpl. rewrite upd_same. simpl. lia.
-  - destruct (is_locking (sh s)); [discriminate H|].
+  - destruct (is_locking (sh s) || negb (Nat.eqb (pendw s) 0)); [discriminate H|].
     rewrite R in H. simpl in H. inversion H; subst. simpl. rewrite upd_same. simpl. lia.
   - destruct (closed s); inversion H; subst; simpl; rewrite upd_same; simpl; lia.
   - destruct (mem t (bounced s)); [inversion H; subst; simpl; rewrite upd_same; simpl; lia|].
@@ -819,24 +837,25 @@ Qed.
 Lemma run_cons_some o s c s' r : step o s c = Some s' -> run o s (c :: r) = run o s' r.
 Proof. intros E. simpl. unfold step'. rewrite E. reflexivity. Qed.
 
-Lemma solo_execute o s : InvA s -> ph s = PRunning -> sh s = ShIdle -> length (queue s) < cap s ->
+Lemma solo_execute o s : InvA s -> ph s = PRunning -> sh s = ShIdle -> pendw s = 0 -> length (queue s) < cap s ->
   let s' := run o s [Call; Sub (next s); Sub (next s); Sub (next s); Sub (next s)] in
   subs s' (next s) = SRet ROk /\ queue s' = queue s ++ [next s] /\ ran s' = ran s.
 Proof.
-  intros I R Hs Hroom.
+  intros I R Hs Hpw Hroom.
   assert (C : closed s = false).
   { rewrite (a_closed_sh _ I), Hs. reflexivity. }
   pose proof (a_bounced _ I C) as Bo.
   set (t := next s).
   set (s1 := mk (ph s) (nw s) (cap s) (queue s) (closed s) (dn s) (ws s) (upd (subs s) t SGet) (sh s)
-               (S t) (entered s) (early s) (ran s) (bounced s) (errs s) (recovered s)).
+               (S t) (entered s) (early s) (ran s) (bounced s) (errs s) (recovered s) (pendw s)).
   assert (E1 : step o s Call = Some s1) by reflexivity.
   assert (E2 : step o s1 (Sub t) = Some (set_sub s1 t SCheck)).
   { cbn [step]. unfold s1 at 1. cbn [subs]. rewrite upd_same. unfold s1 at 1. cbn [ph]. rewrite R. reflexivity. }
   set (s2 := set_sub s1 t SCheck) in *.
   assert (E3 : step o s2 (Sub t) = Some (set_sub s2 t SPark)).
   { cbn [step]. unfold s2 at 1. cbn [subs set_sub]. rewrite upd_same.
-    assert (S2 : sh s2 = ShIdle) by exact Hs. rewrite S2. cbn [is_locking].
+    assert (S2 : sh s2 = ShIdle) by exact Hs. assert (P2 : pendw s2 = 0) by exact Hpw.
+    rewrite S2, P2. cbn [is_locking Nat.eqb negb orb].
     unfold s2 at 1, s1 at 1. cbn [ph set_sub]. rewrite R. reflexivity. }
   set (s3 := set_sub s2 t SPark) in *.
   assert (E4 : step o s3 (Sub t) = Some (park s3 t)).
@@ -882,7 +901,7 @@ Qed.
 (* ------------------------------------------------------------------ the outcome of a task does not matter *)
 
 Definition core (s : st) :=
-  (ph s, nw s, cap s, queue s, closed s, dn s, ws s, subs s, sh s, next s, entered s, early s, ran s, bounced s).
+  (ph s, nw s, cap s, queue s, closed s, dn s, ws s, subs s, sh s, next s, entered s, early s, ran s, bounced s, pendw s).
 
 Lemma step_core o1 o2 s1 s2 c : core s1 = core s2 ->
   match step o1 s1 c, step o2 s2 c with
@@ -893,7 +912,8 @@ Lemma step_core o1 o2 s1 s2 c : core s1 = core s2 ->
 Proof.
   intros E. destruct s1, s2. unfold core in E. simpl in E. inversion E; subst. clear E.
   destruct c; cbn [step Model.ph Model.nw Model.cap Model.queue Model.closed Model.dn Model.ws Model.subs
-                   Model.sh Model.next Model.entered Model.early Model.ran Model.bounced Model.errs Model.recovered];
+                   Model.sh Model.next Model.entered Model.early Model.ran Model.bounced Model.errs Model.recovered
+                   Model.pendw];
   repeat match goal with
          | |- context [match subs0 ?t with _ => _ end] => destruct (subs0 t)
          | |- context [match nth ?j ?l ?d with _ => _ end] => destruct (nth j l d)
@@ -901,6 +921,7 @@ Proof.
          | |- context [if phase_eqb ?a ?b then _ else _] => destruct (phase_eqb a b)
          | |- context [if mem ?a ?b then _ else _] => destruct (mem a b)
          | |- context [if is_locking ?a then _ else _] => destruct (is_locking a)
+         | |- context [if is_locking ?a || ?b then _ else _] => destruct (is_locking a || b)
          | |- context [if forallb ?a ?b then _ else _] => destruct (forallb a b)
          end; try exact I; try reflexivity; try discriminate.
 Qed.
@@ -1078,6 +1099,9 @@ Proof.
     + exfalso. destruct (P k Hk) as [X|X]; rewrite X in Esh; discriminate Esh.
     + exfalso. destruct (P k Hk) as [X|X]; rewrite X in Esh; discriminate Esh.
     + exfalso. destruct (P k Hk) as [X|X]; rewrite X in Esh; discriminate Esh.
+    + (* another Shutdown caller's CAS: no reader left either *)
+      exfalso. assert (Hl : k < next s) by (apply (live_lt _ _ I); destruct (subs s k); discriminate).
+      pose proof (forallb_seq_lt _ _ Erd k Hl) as Hn. simpl in Hn. rewrite Hk in Hn. discriminate Hn.
   - (* beyond the capacity only parked senders *)
     step_cases H; pose proof (r_beyond _ R) as P; simpl; intros k Hk;
     try (apply P; assumption);
@@ -1219,4 +1243,48 @@ Proof.
       eapply step_panic_origin; eauto.
     - split; [apply InvA_init|]. split; [apply InvR_init | simpl; intros; discriminate]. }
   destruct G as [_ [_ G]]. apply G.
+Qed.
+
+(* ------------------------------------------------------------------ any number of Shutdown callers *)
+
+Definition shut_begun (p : phase) : Prop := p = PShutdown \/ p = PTerminated.
+
+(* the state leaves Running once, for good: exactly one caller's CAS succeeds *)
+Lemma step_shut_begun o s c s' : InvA s -> shut_begun (ph s) -> step o s c = Some s' -> shut_begun (ph s').
+Proof.
+  intros I B H. unfold shut_begun in *.
+  step_cases H; simpl; auto;
+  try (exfalso; destruct B as [B|B]; congruence).
+  exfalso. assert (E : ph s = PStarted) by (apply (a_starter_ph _ I t); rewrite Esub; reflexivity).
+  destruct B as [B|B]; congruence.
+Qed.
+
+Theorem shutdown_once o n c cs1 cs2 :
+  let s1 := run o (init n c) cs1 in
+  shut_begun (ph s1) -> shut_begun (ph (run o s1 cs2)).
+Proof.
+  intros s1 B.
+  assert (G : InvA (run o s1 cs2) /\ shut_begun (ph (run o s1 cs2))).
+  { apply (run_inv o (fun x => InvA x /\ shut_begun (ph x))).
+    - intros x ch x' [I Bx] H. split; [eapply step_InvA; eauto | eapply step_shut_begun; eauto].
+    - split; [apply (proj1 (reach_Inv o n c cs1)) | exact B]. }
+  apply G.
+Qed.
+
+(* a further caller gets the lock exactly when no Execute holds it; it then either performs the
+   state change itself (if nobody has) or returns without touching anything else *)
+Lemma other_caller_spec o s : pendw s <> 0 ->
+  (step o s ShutOtherGo <> None <-> forallb (fun t => negb (is_reader (subs s t))) (seq 0 (next s)) = true) /\
+  (forall s', step o s ShutOtherGo = Some s' ->
+     (ph s = PRunning /\ ph s' = PShutdown /\ sh s' = ShClose) \/
+     (ph s <> PRunning /\ ph s' = ph s /\ sh s' = sh s /\ pendw s' = pred (pendw s))) /\
+  (forall s', step o s ShutOtherGo = Some s' ->
+     queue s' = queue s /\ ws s' = ws s /\ ran s' = ran s /\ subs s' = subs s /\ dn s' = dn s /\ closed s' = closed s).
+Proof.
+  intros Hp. cbn [step]. destruct (pendw s) as [|p] eqn:E; [congruence|].
+  destruct (forallb (fun t => negb (is_reader (subs s t))) (seq 0 (next s))) eqn:F.
+  - destruct (phase_eqb (ph s) PRunning) eqn:R; [apply phase_eqb_eq in R | apply phase_eqb_neq in R].
+    + split; [split; [reflexivity | discriminate]|]. split; intros s' H; inversion H; subst; simpl; auto 10.
+    + split; [split; [reflexivity | discriminate]|]. split; intros s' H; inversion H; subst; simpl; auto 10.
+  - split; [split; [intros H; congruence | discriminate]|]. split; intros s' H; discriminate H.
 Qed.
